@@ -1,7 +1,7 @@
 (* C08 — run()/stop(): started once, everything queued is drained, stopped once, exit code propagates.
    Only statements here; the model is Model/KLoop.v, the proofs are in Proofs/KLoopP.v.
 
-   All theorems are about [run false P d fuel s0 = Some (s1, out)]: run() entered in state s0 returns in state s1
+   All theorems are about [run false false P d fuel s0 = Some (s1, out)]: run() entered in state s0 returns in state s1
    and hands [out] to its caller (Some c: raises SystemExit(c); None: returns normally).  They hold
      for every program P       (evk -> list body: plain and generator handlers of started / stopped /
                                 exception / user events that fire events, call stop(code) themselves or from a
@@ -10,6 +10,8 @@
                                 schedule [sched s0], ANY script of second-thread actions [ext s0], any
                                 earlier trace: so they hold for the n-th run of a manager as for the first),
      for every fuel and nesting depth on which run returns (None = the loop did not finish within fuel).
+   The second argument [false] of run selects the dispatcher's wait decision for generate_events as it is in the
+   code (with its `or not self._running` clause; [true]: without, see C08_ge_clause_dropped_refuted).
    The first argument [false] of run selects the statement order of Manager.stop() as it is in the code
    (`_running = False; _exit_code = code; fire(stopped)`); [true] is the order with the code recorded after the
    fire, kept only to be refuted (C08_exit_code_legacy_order_refuted).
@@ -27,7 +29,7 @@ From Circ Require Import Model.KLoop Proofs.KLoopP.
 Import ListNotations.
 
 (* `started` is dispatched exactly once per run() *)
-Theorem C08_started_once : forall P d fuel s0 s1 out, idle s0 -> run false P d fuel s0 = Some (s1, out) ->
+Theorem C08_started_once : forall P d fuel s0 s1 out, idle s0 -> run false false P d fuel s0 = Some (s1, out) ->
   exists delta, trace s1 = trace s0 ++ delta /\ cnt KStarted (dispK delta) = 1.
 Proof. exact started_once. Qed.
 Print Assumptions C08_started_once.
@@ -36,7 +38,7 @@ Print Assumptions C08_started_once.
    under the exact complement of open finding C08-early-return-race: no stopping second thread that was
    pre-empted between its `_exit_code = code` and its fire(stopped) is still parked when run() returns
    ([pend s1 = Some (true, _)] is set by nothing else; the trace then contains TEarly) *)
-Theorem C08_stopped_once_partial : forall P d fuel s0 s1 out, idle s0 -> run false P d fuel s0 = Some (s1, out) ->
+Theorem C08_stopped_once_partial : forall P d fuel s0 s1 out, idle s0 -> run false false P d fuel s0 = Some (s1, out) ->
   is_early (pend s1) = false ->
   exists delta, trace s1 = trace s0 ++ delta /\ cnt KStopped (dispK delta) = 1.
 Proof. exact stopped_once_partial. Qed.
@@ -46,20 +48,20 @@ Print Assumptions C08_stopped_once_partial.
    its fire(stopped) while the loop sits in the timed idle wait (a generator task is pending): run() raises
    SystemExit(5) without `stopped` having been dispatched -- it has not even been queued *)
 Theorem C08_stopped_before_return_refuted : exists P d fuel s0 s1 out delta,
-  idle s0 /\ run false P d fuel s0 = Some (s1, out) /\
+  idle s0 /\ run false false P d fuel s0 = Some (s1, out) /\
   trace s1 = trace s0 ++ delta /\ cnt KStopped (dispK delta) = 0 /\ out = Some 5%Z.
 Proof. exact stopped_before_return_refuted. Qed.
 Print Assumptions C08_stopped_before_return_refuted.
 
 (* full strength, every schedule: never more than once *)
-Theorem C08_stopped_at_most_once : forall P d fuel s0 s1 out, idle s0 -> run false P d fuel s0 = Some (s1, out) ->
+Theorem C08_stopped_at_most_once : forall P d fuel s0 s1 out, idle s0 -> run false false P d fuel s0 = Some (s1, out) ->
   exists delta, trace s1 = trace s0 ++ delta /\ cnt KStopped (dispK delta) <= 1.
 Proof. exact stopped_at_most_once. Qed.
 Print Assumptions C08_stopped_at_most_once.
 
 (* run() returns with an empty queue, and the sequence of events dispatched during the run IS the sequence
    of events queued during the run (started, stopped, generate_events, exception and user events alike) *)
-Theorem C08_drained : forall P d fuel s0 s1 out, idle s0 -> run false P d fuel s0 = Some (s1, out) ->
+Theorem C08_drained : forall P d fuel s0 s1 out, idle s0 -> run false false P d fuel s0 = Some (s1, out) ->
   fifo s1 = [] /\ heap s1 = [] /\ batch s1 = 0 /\
   exists delta, trace s1 = trace s0 ++ delta /\ dispK delta = firedK delta.
 Proof. exact drained. Qed.
@@ -68,7 +70,7 @@ Print Assumptions C08_drained.
 (* run() does not return unless a stop was requested, and what it hands to its caller is the code of the
    FIRST request of this run (stop(code), SystemExit(code) raised in a handler or a generator step,
    KeyboardInterrupt = None, from the loop's thread or the second thread) *)
-Theorem C08_exit_code : forall P d fuel s0 s1 out, idle s0 -> run false P d fuel s0 = Some (s1, out) ->
+Theorem C08_exit_code : forall P d fuel s0 s1 out, idle s0 -> run false false P d fuel s0 = Some (s1, out) ->
   exists delta r, trace s1 = trace s0 ++ delta /\ reqs delta = out :: r.
 Proof. exact exit_code. Qed.
 Print Assumptions C08_exit_code.
@@ -81,14 +83,14 @@ Print Assumptions C08_idle_stop.
 (* a manager that has stopped is at rest again (not running, no executing thread, nothing queued), and idle --
    so that every theorem above applies to its next run() -- unless a pre-empted stopping thread is still parked
    (its remainder, Model finish_late, runs outside run(): three inline ticks by the second thread) *)
-Theorem C08_rerun : forall P d fuel s0 s1 out, idle s0 -> run false P d fuel s0 = Some (s1, out) ->
+Theorem C08_rerun : forall P d fuel s0 s1 out, idle s0 -> run false false P d fuel s0 = Some (s1, out) ->
   at_rest s1 /\ (pend s1 = None -> idle s1).
 Proof. exact rerun. Qed.
 Print Assumptions C08_rerun.
 
 (* all of it at once, exact (the lemma the others are projections of): the count of `stopped` is 1 except in
    the class of the open finding, where it is 0 *)
-Theorem C08_run_spec : forall P d fuel s0 s1 out, idle s0 -> run false P d fuel s0 = Some (s1, out) ->
+Theorem C08_run_spec : forall P d fuel s0 s1 out, idle s0 -> run false false P d fuel s0 = Some (s1, out) ->
   exists delta, trace s1 = trace s0 ++ delta /\
     firedK delta = dispK delta /\
     cnt KStarted (firedK delta) = 1 /\
@@ -101,15 +103,38 @@ Print Assumptions C08_run_spec.
 (* recording the exit code AFTER fire(stopped) loses it: stop(c) from a second thread that is pre-empted right
    after the wake-up; run() returns normally although the first (only) request carried c *)
 Theorem C08_exit_code_legacy_order_refuted : exists P d fuel s0 s1 delta r c,
-  idle s0 /\ run true P d fuel s0 = Some (s1, None) /\
+  idle s0 /\ run true false P d fuel s0 = Some (s1, None) /\
   trace s1 = trace s0 ++ delta /\ reqs delta = Some c :: r.
 Proof. exact exit_code_legacy_refuted. Qed.
 Print Assumptions C08_exit_code_legacy_order_refuted.
 
+(* a generate_events dispatched while the manager is not running never waits (the dispatcher's
+   `or not self._running` clause); it can be reached: a second thread's whole stop() landing in tick() between
+   `if self._running` and fire(generate_events) ([mid s0], any position, any code -- all theorems above hold for
+   every such script) *)
+Theorem C08_ge_not_running_never_waits : forall lg P tk s, running s = false ->
+  dispatch lg false P tk KGE s = logt (TDisp KGE) s.
+Proof. exact ge_not_running_never_waits. Qed.
+Print Assumptions C08_ge_not_running_never_waits.
+
+(* without that clause: stop() lands between the test and the fire of the first tick of the empty program; the
+   batch is [started; stopped; generate_events]; the model's loop enters the unbounded wait on a stopped manager
+   where nothing can wake it, and run does not return (fuel 50 and 400), while the code's variant returns *)
+Theorem C08_ge_clause_dropped_refuted : exists P d s0,
+  idle s0 /\ run false true P d 50 s0 = None /\ run false true P d 400 s0 = None /\
+  run false false P d 50 s0 <> None.
+Proof. exact ge_clause_dropped_refuted. Qed.
+Print Assumptions C08_ge_clause_dropped_refuted.
+
+Example C08_ex_stop_between_test_and_fire :
+  option_map (fun r => dispK (trace (fst r))) (run false false (prog_of []) 3 50 (set_mid [Some None] (init [] [])))
+  = Some [KStarted; KStopped; KGE].
+Proof. exact ge_clause_example. Qed.
+
 (* ---- non-vacuity: concrete programs on which run returns *)
 (* the schedule of the refutation, with the order of the code: SystemExit(3) reaches the caller *)
 Example C08_ex_late_stop :
-  option_map snd (run false (prog_of []) 3 50 (init [] [XStop PLate (Some 3%Z)])) = Some (Some 3%Z).
+  option_map snd (run false false (prog_of []) 3 50 (init [] [XStop PLate (Some 3%Z)])) = Some (Some 3%Z).
 Proof. exact exit_code_late_example. Qed.
 
 (* the three witnesses of the defects repaired by fixes/C08_1..3 *)
@@ -125,20 +150,20 @@ Example C08_ex_idle : idle (init [] []).
 Proof. repeat split. Qed.
 
 Example C08_ex_exit7 :
-  option_map (fun r => (dispK (trace (fst r)), snd r)) (run false ex_exit7 3 50 (init [] []))
+  option_map (fun r => (dispK (trace (fst r)), snd r)) (run false false ex_exit7 3 50 (init [] []))
   = Some ([KStarted; KGE; KStopped], Some 7%Z).
 Proof. vm_compute. reflexivity. Qed.
 
 Example C08_ex_stop3 :
-  option_map (fun r => (dispK (trace (fst r)), snd r)) (run false ex_stop3 3 50 (init [] []))
+  option_map (fun r => (dispK (trace (fst r)), snd r)) (run false false ex_stop3 3 50 (init [] []))
   = Some ([KStarted; KGE; KStopped], Some 3%Z).
 Proof. vm_compute. reflexivity. Qed.
 
 (* the generator keeps firing during the fade-out ticks; the last e2 is dispatched by the final drain;
    the second run() continues the leftover generator and still gives every guarantee *)
 Definition two_runs (P : prog) (s : st) : option (st * option Z * st * option Z) :=
-  match run false P 3 50 s with
-  | Some (s1, o1) => match run false P 3 50 s1 with Some (s2, o2) => Some (s1, o1, s2, o2) | None => None end
+  match run false false P 3 50 s with
+  | Some (s1, o1) => match run false false P 3 50 s1 with Some (s2, o2) => Some (s1, o1, s2, o2) | None => None end
   | None => None
   end.
 
@@ -159,6 +184,6 @@ Proof. vm_compute. split; reflexivity. Qed.
 (* a stop from the second thread while the loop idles, with an exit code *)
 Example C08_ex_ext_stop :
   option_map (fun r => (dispK (trace (fst r)), reqs (trace (fst r)), snd r))
-             (run false (prog_of []) 3 50 (init [] [XFire 4; XStop PJoin (Some 5%Z)]))
+             (run false false (prog_of []) 3 50 (init [] [XFire 4; XStop PJoin (Some 5%Z)]))
   = Some ([KStarted; KGE; KUser 4; KGE; KStopped], [Some 5%Z], Some 5%Z).
 Proof. vm_compute. reflexivity. Qed.
